@@ -6,14 +6,19 @@
 //
 //   VERIF_IN   ndjson cases enumerated by TLC (spec/Wire.tla):
 //                {"t":"shape","era":..,"method":..,"hasId":..,"idc":..,"params":..}
-//                {"t":"batch","members":["call","notif","unk"],"order":[2,1]}
+//                {"t":"batch","members":["call","notif","unk"],"order":[2,1],"reuse":"returned"|"received"}
+//                {"t":"framing","side":"client"|"server","ncalls":2,"frames":[{"arr":true,"items":["r2","n","r1"]}]}
+//              "framing" (property C01): a real ClientSession / ServerSession with ncalls calls outstanding against a
+//              raw scripted peer that answers them framed as the case says.
 //   VERIF_OUT  one observation line per case
 package mcp_test
 
 import (
 	"bufio"
+	"bytes"
 	"context"
 	"encoding/json"
+	"errors"
 	"fmt"
 	"io"
 	"math/rand/v2"
@@ -28,6 +33,7 @@ import (
 	"testing/synctest"
 	"time"
 
+	"github.com/modelcontextprotocol/go-sdk/jsonrpc"
 	"github.com/modelcontextprotocol/go-sdk/mcp"
 )
 
@@ -41,6 +47,16 @@ type c02Case struct {
 	Members []string `json:"members"`
 	Order   []int    `json:"order"`
 	JSON    bool     `json:"json"` // streamable HTTP: JSONResponse mode
+	Reuse   string   `json:"reuse"` // batch: when the ids are re-used: "returned" (after the Write of the reply returned) / "received"
+	// framing
+	Side   string     `json:"side"`
+	NCalls int        `json:"ncalls"`
+	Frames []c02Frame `json:"frames"`
+}
+
+type c02Frame struct {
+	Arr   bool     `json:"arr"`
+	Items []string `json:"items"`
 }
 
 type c02Obs struct {
@@ -64,6 +80,15 @@ type c02Obs struct {
 	Answered  int  `json:"answered"`  // batch: members with an id that got exactly one response with that id
 	ReuseOK   bool `json:"reuseOk"`   // batch: a later single call re-using the first member's id was answered
 	ReuseStat int  `json:"reuseStatus"`
+	Hung      bool `json:"hung"`      // the POST carrying the case had not completed at quiescence after a bounded virtual wait
+	ReuseHeld bool `json:"reuseHeld"` // batch, reuse=received: the server was still inside the Write of the reply when the ids were re-used
+	// framing
+	Outcome   []string `json:"outcome"`   // per call: own / other / failed / blocked
+	DoneAfter [][]int  `json:"doneAfter"` // per frame: the calls that had returned at quiescence after it
+	Notifs    int      `json:"notifs"`    // notification handler invocations
+	QAnswers  int      `json:"qAnswers"`  // responses carrying the id of the peer's call
+	QOther    int      `json:"qOther"`    // responses carrying any other id
+	Detail    string   `json:"detail"`
 }
 
 type c02Flush struct {
@@ -150,7 +175,56 @@ func c02Params(method, pc string) string {
 	panic("params " + pc)
 }
 
+// c02HoldWriter is the server's output stream.  It forwards every line to the pipe (the Write of an io.Pipe returns
+// once the peer has consumed the bytes) and, when armed, does not let the Write of the next batch reply (a line that
+// starts with '[') RETURN until release is called: the window in which the peer already holds the reply while the
+// server is still inside its Write.
+type c02HoldWriter struct {
+	w       io.WriteCloser
+	mu      sync.Mutex
+	armed   bool
+	holding bool
+	gate    chan struct{}
+}
+
+func (h *c02HoldWriter) Write(p []byte) (int, error) {
+	n, err := h.w.Write(p)
+	h.mu.Lock()
+	hold := h.armed && bytes.HasPrefix(bytes.TrimSpace(p), []byte("["))
+	var gate chan struct{}
+	if hold {
+		h.armed, h.holding = false, true
+		h.gate = make(chan struct{})
+		gate = h.gate
+	}
+	h.mu.Unlock()
+	if hold {
+		<-gate
+	}
+	return n, err
+}
+
+func (h *c02HoldWriter) Close() error { h.release(); return h.w.Close() }
+func (h *c02HoldWriter) arm()         { h.mu.Lock(); h.armed = true; h.mu.Unlock() }
+func (h *c02HoldWriter) isHolding() bool {
+	h.mu.Lock()
+	defer h.mu.Unlock()
+	return h.holding
+}
+
+// release lets a held Write return (and disarms).
+func (h *c02HoldWriter) release() {
+	h.mu.Lock()
+	h.armed = false
+	if h.holding {
+		h.holding = false
+		close(h.gate)
+	}
+	h.mu.Unlock()
+}
+
 type c02Env struct {
+	hold    *c02HoldWriter
 	handled []int          // member positions in the order their handlers started
 	posOf   map[string]int // gate tag -> member position
 	peer    *c02Peer
@@ -215,11 +289,13 @@ func c02Setup(t *testing.T, era string) *c02Env {
 			e.peer.mu.Unlock()
 		}
 	}()
-	ss, err := e.srv.Connect(context.Background(), &mcp.IOTransport{Reader: inR, Writer: outW}, nil)
+	e.hold = &c02HoldWriter{w: outW}
+	ss, err := e.srv.Connect(context.Background(), &mcp.IOTransport{Reader: inR, Writer: e.hold}, nil)
 	if err != nil {
 		t.Fatal(err)
 	}
 	e.cleanup = func() {
+		e.hold.release()
 		inW.Close()
 		synctest.Wait()
 		ss.Close()
@@ -335,6 +411,9 @@ func c02Batch(t *testing.T, r *rand.Rand, c c02Case) (o c02Obs) {
 			}
 		}
 		o.Sent = "[" + strings.Join(parts, ",") + "]"
+		if c.Reuse == "received" {
+			e.hold.arm() // the Write of this batch's reply delivers the bytes and then does not return until released
+		}
 		e.peer.send(o.Sent)
 		synctest.Wait()
 		answered := 0
@@ -384,6 +463,11 @@ func c02Batch(t *testing.T, r *rand.Rand, c c02Case) (o c02Obs) {
 		}
 		for _, pos := range c.Order {
 			if pos-1 < len(gated) {
+				if len(o.Flushes) > 0 {
+					// a reply array although calls are still unanswered (judged by BatchReplyWhenAllAnswered): the
+					// timing of the re-use is moot, and further writes must not queue up behind the held one
+					e.hold.release()
+				}
 				close(e.gate(fmt.Sprintf("g%d", gated[pos-1])))
 				answered++
 				k++
@@ -391,8 +475,10 @@ func c02Batch(t *testing.T, r *rand.Rand, c c02Case) (o c02Obs) {
 				collect()
 			}
 		}
-		time.Sleep(time.Second)
-		synctest.Wait()
+		if !e.hold.isHolding() {
+			time.Sleep(time.Second)
+			synctest.Wait()
+		}
 		collect()
 		o.Count = ncalls
 		e.gmu.Lock()
@@ -408,8 +494,25 @@ func c02Batch(t *testing.T, r *rand.Rand, c c02Case) (o c02Obs) {
 				last = callIDs[gated[c.Order[len(c.Order)-1]-1]]
 			}
 			e.peer.take()
-			e.peer.send(fmt.Sprintf(`[{"jsonrpc":"2.0","id":%s,"method":"no/such"}]`, last))
-			synctest.Wait()
+			if e.hold.isHolding() {
+				// The peer holds the reply, so the ids are its to use again, while the server is still inside the
+				// Write of that reply.  The next batch re-uses the id answered last, for a call whose handler waits
+				// (nothing is written while the Write is held); then the Write returns and the handler is let go.
+				o.ReuseHeld = true
+				e.gmu.Lock()
+				e.posOf = map[string]int{}
+				e.gmu.Unlock()
+				e.peer.send(fmt.Sprintf(`[{"jsonrpc":"2.0","id":%s,"method":"tools/call","params":{"name":"gate","arguments":{"tag":"reuse"}}}]`, last))
+				synctest.Wait()
+				e.hold.release()
+				synctest.Wait()
+				close(e.gate("reuse"))
+				synctest.Wait()
+			} else {
+				e.hold.release()
+				e.peer.send(fmt.Sprintf(`[{"jsonrpc":"2.0","id":%s,"method":"no/such"}]`, last))
+				synctest.Wait()
+			}
 			if got := strings.Join(e.peer.take(), "\n"); !strings.Contains(got, `"id":`+last) {
 				o.ReuseOK = false
 			}
@@ -420,15 +523,389 @@ func c02Batch(t *testing.T, r *rand.Rand, c c02Case) (o c02Obs) {
 				o.ReuseOK = false
 			}
 		}
+		e.hold.release()
+		synctest.Wait()
 		o.Alive = e.alive()
+	})
+	return o
+}
+
+// ---------------------------------------------------------------- reply framing (C01): the SDK's own calls
+
+type c02Wire struct {
+	ID     json.RawMessage `json:"id"`
+	Method string          `json:"method"`
+	Params json.RawMessage `json:"params"`
+}
+
+// c02Messages splits one output line of the SDK into its messages (a line is a single message or an array).
+func c02Messages(line string) []c02Wire {
+	line = strings.TrimSpace(line)
+	if strings.HasPrefix(line, "[") {
+		var arr []c02Wire
+		json.Unmarshal([]byte(line), &arr)
+		return arr
+	}
+	var m c02Wire
+	if json.Unmarshal([]byte(line), &m) != nil {
+		return nil
+	}
+	return []c02Wire{m}
+}
+
+type c02CallResult struct {
+	done bool
+	text string // payload of a result
+	code int    // wire error: code and message
+	msg  string
+	err  string // any other error
+}
+
+// c02Framing: a real ClientSession (side "client") or ServerSession (side "server", 2025-03-26) has c.NCalls calls
+// outstanding; the raw peer answers each of them, with the framing of the case.  Nothing is cancelled or closed, no
+// deadline is set: a call that has not returned at quiescence after the last frame is reported as "blocked".
+func c02Framing(t *testing.T, r *rand.Rand, c c02Case) (o c02Obs) {
+	o.Case = c
+	o.Outcome = make([]string, c.NCalls)
+	o.DoneAfter = [][]int{}
+	defer func() {
+		if p := recover(); p != nil {
+			o.Panic = fmt.Sprint(p)
+		}
+	}()
+	nonce := r.IntN(1 << 20)
+	isErr := make([]bool, c.NCalls+2) // the peer answers call k with an error object instead of a result
+	for k := 1; k <= c.NCalls; k++ {
+		isErr[k] = r.IntN(4) == 0
+	}
+	own := func(k int) string { return fmt.Sprintf("own-%d-%d", k, nonce) }
+	synctest.Test(t, func(t *testing.T) {
+		inR, inW := io.Pipe()   // peer -> SDK
+		outR, outW := io.Pipe() // SDK -> peer
+		peer := &c02Peer{w: inW}
+		go func() {
+			sc := bufio.NewScanner(outR)
+			sc.Buffer(make([]byte, 1<<16), 1<<24)
+			for sc.Scan() {
+				peer.mu.Lock()
+				peer.lines = append(peer.lines, sc.Text())
+				peer.mu.Unlock()
+			}
+		}()
+		// send: false when the SDK did not take the bytes (it has stopped reading)
+		send := func(line string) bool {
+			sent := make(chan struct{})
+			go func() { inW.Write([]byte(line + "\n")); close(sent) }()
+			synctest.Wait()
+			select {
+			case <-sent:
+				return true
+			default:
+				return false
+			}
+		}
+		var mu sync.Mutex
+		notifs := 0
+		results := make([]c02CallResult, c.NCalls+2) // [NCalls+1] = the probe after the frames
+		var wg sync.WaitGroup
+		var issue func(k int) // starts call k in its own goroutine
+		var closeSession func()
+		ctx := context.Background()
+		record := func(k int, text string, err error) {
+			res := c02CallResult{done: true, text: text}
+			if err != nil {
+				var we *jsonrpc.Error
+				if errors.As(err, &we) {
+					res.code, res.msg = int(we.Code), we.Message
+				} else {
+					res.err = err.Error()
+				}
+			}
+			mu.Lock()
+			results[k] = res
+			mu.Unlock()
+		}
+		var callMethod string
+		keyOf := func(m c02Wire) int { return 0 }
+		if c.Side == "client" {
+			callMethod = "tools/call"
+			client := mcp.NewClient(&mcp.Implementation{Name: "c", Version: "1"}, &mcp.ClientOptions{
+				ProgressNotificationHandler: func(context.Context, *mcp.ProgressNotificationClientRequest) {
+					mu.Lock()
+					notifs++
+					mu.Unlock()
+				},
+			})
+			type conn struct {
+				cs  *mcp.ClientSession
+				err error
+			}
+			connected := make(chan conn, 1)
+			go func() {
+				cs, err := client.Connect(ctx, &mcp.IOTransport{Reader: inR, Writer: outW}, &mcp.ClientSessionOptions{ProtocolVersion: "2025-03-26"})
+				connected <- conn{cs, err}
+			}()
+			synctest.Wait()
+			var initID string
+			for _, l := range peer.take() {
+				for _, m := range c02Messages(l) {
+					if m.Method == "initialize" {
+						initID = string(m.ID)
+					}
+				}
+			}
+			if initID == "" {
+				t.Fatal("framing/client: no initialize request")
+			}
+			send(`{"jsonrpc":"2.0","id":` + initID + `,"result":{"protocolVersion":"2025-03-26","capabilities":{"tools":{}},"serverInfo":{"name":"p","version":"1"}}}`)
+			synctest.Wait()
+			var cn conn
+			select {
+			case cn = <-connected:
+			default:
+				t.Fatal("framing/client: Connect did not return")
+			}
+			if cn.err != nil {
+				t.Fatalf("framing/client: Connect: %v", cn.err)
+			}
+			peer.take()
+			cs := cn.cs
+			issue = func(k int) {
+				wg.Add(1)
+				go func() {
+					defer wg.Done()
+					res, err := cs.CallTool(ctx, &mcp.CallToolParams{Name: fmt.Sprintf("t%d", k)})
+					text := ""
+					if err == nil && res != nil && len(res.Content) == 1 {
+						if tc, ok := res.Content[0].(*mcp.TextContent); ok {
+							text = tc.Text
+						}
+					}
+					record(k, text, err)
+				}()
+			}
+			keyOf = func(m c02Wire) int {
+				var p struct {
+					Name string `json:"name"`
+				}
+				json.Unmarshal(m.Params, &p)
+				k, _ := strconv.Atoi(strings.TrimPrefix(p.Name, "t"))
+				return k
+			}
+			closeSession = func() { cs.Close() }
+		} else {
+			callMethod = "roots/list"
+			srv := mcp.NewServer(&mcp.Implementation{Name: "s", Version: "1"}, &mcp.ServerOptions{
+				ProgressNotificationHandler: func(context.Context, *mcp.ProgressNotificationServerRequest) {
+					mu.Lock()
+					notifs++
+					mu.Unlock()
+				},
+			})
+			ss, err := srv.Connect(ctx, &mcp.IOTransport{Reader: inR, Writer: outW}, nil)
+			if err != nil {
+				t.Fatal(err)
+			}
+			send(`{"jsonrpc":"2.0","id":"init","method":"initialize","params":{"protocolVersion":"2025-03-26","capabilities":{"roots":{"listChanged":true},"sampling":{},"elicitation":{}},"clientInfo":{"name":"p","version":"1"}}}`)
+			send(`{"jsonrpc":"2.0","method":"notifications/initialized","params":{}}`)
+			if got := peer.take(); len(got) != 1 || !strings.Contains(got[0], `"id":"init"`) {
+				t.Fatalf("framing/server: handshake failed: %v", got)
+			}
+			issue = func(k int) {
+				wg.Add(1)
+				go func() {
+					defer wg.Done()
+					res, err := ss.ListRoots(ctx, &mcp.ListRootsParams{Meta: mcp.Meta{"k": k}})
+					text := ""
+					if err == nil && res != nil && len(res.Roots) == 1 {
+						text = res.Roots[0].Name
+					}
+					record(k, text, err)
+				}()
+			}
+			keyOf = func(m c02Wire) int {
+				var p struct {
+					Meta struct {
+						K int `json:"k"`
+					} `json:"_meta"`
+				}
+				json.Unmarshal(m.Params, &p)
+				return p.Meta.K
+			}
+			closeSession = func() { ss.Close() }
+		}
+		defer func() {
+			inW.Close()
+			synctest.Wait()
+			closeSession()
+			outW.Close()
+			outR.Close()
+			wg.Wait()
+			synctest.Wait()
+		}()
+
+		// the calls go out; the peer learns which id belongs to which call
+		ids := map[int]string{}
+		learn := func() {
+			for _, l := range peer.take() {
+				for _, m := range c02Messages(l) {
+					if m.Method == callMethod && len(m.ID) > 0 {
+						ids[keyOf(m)] = string(m.ID)
+					}
+				}
+			}
+		}
+		for k := 1; k <= c.NCalls; k++ {
+			issue(k)
+		}
+		synctest.Wait()
+		learn()
+		for k := 1; k <= c.NCalls; k++ {
+			if ids[k] == "" {
+				t.Fatalf("framing/%s: call %d was not sent", c.Side, k)
+			}
+		}
+		response := func(k int) string {
+			if isErr[k] {
+				return fmt.Sprintf(`{"jsonrpc":"2.0","id":%s,"error":{"code":%d,"message":%q}}`, ids[k], -32050-k, own(k))
+			}
+			if c.Side == "client" {
+				return fmt.Sprintf(`{"jsonrpc":"2.0","id":%s,"result":{"content":[{"type":"text","text":%q}]}}`, ids[k], own(k))
+			}
+			return fmt.Sprintf(`{"jsonrpc":"2.0","id":%s,"result":{"roots":[{"uri":"file:///%s","name":%q}]}}`, ids[k], own(k), own(k))
+		}
+		const qID = `"peer-q"`
+		doneSet := func() []int {
+			out := []int{}
+			mu.Lock()
+			defer mu.Unlock()
+			for k := 1; k <= c.NCalls; k++ {
+				if results[k].done {
+					out = append(out, k)
+				}
+			}
+			return out
+		}
+		var sentLines []string
+		for _, f := range c.Frames {
+			var parts []string
+			for _, it := range f.Items {
+				switch it {
+				case "n":
+					parts = append(parts, `{"jsonrpc":"2.0","method":"notifications/progress","params":{"progressToken":"t","progress":1}}`)
+				case "q":
+					parts = append(parts, `{"jsonrpc":"2.0","id":`+qID+`,"method":"ping"}`)
+				default:
+					k, _ := strconv.Atoi(strings.TrimPrefix(it, "r"))
+					parts = append(parts, response(k))
+				}
+			}
+			line := parts[0]
+			if f.Arr {
+				line = "[" + strings.Join(parts, ",") + "]"
+			}
+			sentLines = append(sentLines, line)
+			if !send(line) {
+				o.Detail = "the SDK no longer reads; "
+			}
+			synctest.Wait()
+			o.DoneAfter = append(o.DoneAfter, doneSet())
+		}
+		o.Sent = strings.Join(sentLines, "\n")
+		time.Sleep(time.Second)
+		synctest.Wait()
+		// what the SDK wrote meanwhile: responses to the peer's call, and nothing else with an id
+		for _, l := range peer.take() {
+			for _, m := range c02Messages(l) {
+				if m.Method == "" && len(m.ID) > 0 {
+					if string(m.ID) == qID {
+						o.QAnswers++
+					} else {
+						o.QOther++
+					}
+				}
+			}
+		}
+		mu.Lock()
+		o.Notifs = notifs
+		for k := 1; k <= c.NCalls; k++ {
+			res := results[k]
+			switch {
+			case !res.done:
+				o.Outcome[k-1] = "blocked"
+			case res.err != "":
+				o.Outcome[k-1] = "failed"
+				o.Detail += fmt.Sprintf("call %d: %s; ", k, res.err)
+			case isErr[k] && res.code == -32050-k && res.msg == own(k), !isErr[k] && res.code == 0 && res.text == own(k):
+				o.Outcome[k-1] = "own"
+			default:
+				o.Outcome[k-1] = "other"
+				o.Detail += fmt.Sprintf("call %d (sent %s, error=%v) got text=%q code=%d msg=%q; ", k, own(k), isErr[k], res.text, res.code, res.msg)
+			}
+		}
+		mu.Unlock()
+		// the session is still usable: one more call, answered bare
+		probe := c.NCalls + 1
+		isErr[probe] = false
+		issue(probe)
+		synctest.Wait()
+		learn()
+		if ids[probe] != "" && send(response(probe)) {
+			synctest.Wait()
+			mu.Lock()
+			o.Alive = results[probe].done && results[probe].err == "" && results[probe].text == own(probe)
+			mu.Unlock()
+		}
 	})
 	return o
 }
 
 // ---------------------------------------------------------------- streamable HTTP (stateful), in process
 
-func c02Post(h http.Handler, sid, ver, body string) *httptest.ResponseRecorder {
-	req := httptest.NewRequest("POST", "http://127.0.0.1/mcp", strings.NewReader(body))
+// c02RespWriter records an HTTP exchange while its handler may still be running.
+type c02RespWriter struct {
+	mu    sync.Mutex
+	hdr   http.Header
+	code  int
+	wrote bool
+	body  bytes.Buffer
+}
+
+func (w *c02RespWriter) Header() http.Header { return w.hdr }
+func (w *c02RespWriter) WriteHeader(code int) {
+	w.mu.Lock()
+	defer w.mu.Unlock()
+	if !w.wrote {
+		w.wrote, w.code = true, code
+	}
+}
+func (w *c02RespWriter) Write(p []byte) (int, error) {
+	w.mu.Lock()
+	defer w.mu.Unlock()
+	if !w.wrote {
+		w.wrote, w.code = true, 200
+	}
+	return w.body.Write(p)
+}
+func (w *c02RespWriter) Flush() {}
+
+// c02Rec is what an exchange looked like when it completed - or, for an exchange whose handler had not returned at
+// quiescence after a bounded (virtual) wait, what had arrived by then (Hung).
+type c02Rec struct {
+	Code int
+	Body *bytes.Buffer
+	hdr  http.Header
+	Hung bool
+}
+
+func (r *c02Rec) Header() http.Header { return r.hdr }
+
+// c02Post runs one POST against the handler, inside a synctest bubble.  A handler that does not return is an
+// observation (Hung), not a failure of the harness: its request context is cancelled afterwards so that it can unwind.
+func c02Post(h http.Handler, sid, ver, body string) *c02Rec {
+	ctx, cancel := context.WithCancel(context.Background())
+	defer cancel()
+	req := httptest.NewRequest("POST", "http://127.0.0.1/mcp", strings.NewReader(body)).WithContext(ctx)
 	req.Header.Set("Content-Type", "application/json")
 	req.Header.Set("Accept", "application/json, text/event-stream")
 	if sid != "" {
@@ -437,13 +914,46 @@ func c02Post(h http.Handler, sid, ver, body string) *httptest.ResponseRecorder {
 	if ver != "" && ver >= "2025-06-18" {
 		req.Header.Set("Mcp-Protocol-Version", ver)
 	}
-	rec := httptest.NewRecorder()
-	h.ServeHTTP(rec, req)
+	w := &c02RespWriter{hdr: http.Header{}}
+	done := make(chan struct{})
+	var pnc any
+	go func() {
+		defer close(done)
+		defer func() { pnc = recover() }()
+		h.ServeHTTP(w, req)
+	}()
+	finished := func() bool {
+		synctest.Wait()
+		select {
+		case <-done:
+			return true
+		default:
+			return false
+		}
+	}
+	rec := &c02Rec{}
+	if !finished() {
+		time.Sleep(30 * time.Second)
+		rec.Hung = !finished()
+	}
+	w.mu.Lock()
+	rec.Code, rec.Body, rec.hdr = w.code, bytes.NewBuffer(append([]byte(nil), w.body.Bytes()...)), w.hdr.Clone()
+	if !w.wrote && !rec.Hung {
+		rec.Code = 200 // a handler that returns without writing has answered 200
+	}
+	w.mu.Unlock()
+	if rec.Hung {
+		cancel()
+		synctest.Wait()
+	}
+	if pnc != nil {
+		panic(pnc)
+	}
 	return rec
 }
 
 // c02Responses extracts the JSON-RPC messages of an HTTP response (JSON body, JSON array, or SSE data lines).
-func c02Responses(rec *httptest.ResponseRecorder) []string {
+func c02Responses(rec *c02Rec) []string {
 	var out []string
 	add := func(raw string) {
 		raw = strings.TrimSpace(raw)
@@ -479,7 +989,21 @@ func c02HTTP(t *testing.T, r *rand.Rand, c c02Case) (o c02Obs) {
 			o.Panic = fmt.Sprint(p)
 		}
 	}()
+	synctest.Test(t, func(t *testing.T) { c02HTTPRun(r, c, &o) })
+	return o
+}
+
+func c02HTTPRun(r *rand.Rand, c c02Case, o *c02Obs) {
 	srv := mcp.NewServer(&mcp.Implementation{Name: "s", Version: "1"}, nil)
+	defer func() {
+		// let the bubble end: close whatever session the handler created
+		for ss := range srv.Sessions() {
+			ss.Close()
+		}
+		synctest.Wait()
+		time.Sleep(time.Hour)
+		synctest.Wait()
+	}()
 	srv.AddTool(&mcp.Tool{Name: "echo", InputSchema: json.RawMessage(`{"type":"object"}`)},
 		func(ctx context.Context, req *mcp.CallToolRequest) (*mcp.CallToolResult, error) {
 			return &mcp.CallToolResult{Content: []mcp.Content{&mcp.TextContent{Text: "ok"}}}, nil
@@ -489,7 +1013,7 @@ func c02HTTP(t *testing.T, r *rand.Rand, c c02Case) (o c02Obs) {
 	sid := rec.Header().Get("Mcp-Session-Id")
 	if rec.Code != 200 || sid == "" {
 		o.Panic = fmt.Sprintf("setup: initialize status %d", rec.Code)
-		return o
+		return
 	}
 	c02Post(h, sid, c.Era, `{"jsonrpc":"2.0","method":"notifications/initialized","params":{}}`)
 	count := func(msgs []string, tok string) (n, other, code int) {
@@ -521,7 +1045,7 @@ func c02HTTP(t *testing.T, r *rand.Rand, c c02Case) (o c02Obs) {
 		}
 		o.Sent = `{"jsonrpc":"2.0",` + idPart + `"method":"` + method + `"` + c02Params(method, c.Params) + `}`
 		rec := c02Post(h, sid, c.Era, o.Sent)
-		o.Status = rec.Code
+		o.Status, o.Hung = rec.Code, rec.Hung
 		msgs := c02Responses(rec)
 		o.Lines = len(msgs)
 		if c.HasID {
@@ -546,7 +1070,7 @@ func c02HTTP(t *testing.T, r *rand.Rand, c c02Case) (o c02Obs) {
 		}
 		o.Sent = "[" + strings.Join(parts, ",") + "]"
 		rec := c02Post(h, sid, c.Era, o.Sent)
-		o.Status = rec.Code
+		o.Status, o.Hung = rec.Code, rec.Hung
 		msgs := c02Responses(rec)
 		o.Lines = len(msgs)
 		o.Count = len(ids)
@@ -573,7 +1097,6 @@ func c02HTTP(t *testing.T, r *rand.Rand, c c02Case) (o c02Obs) {
 	rec3 := c02Post(h, sid, c.Era, `{"jsonrpc":"2.0","id":"alive-probe","method":"ping"}`)
 	n, _, code := count(c02Responses(rec3), `"alive-probe"`)
 	o.Alive = rec3.Code == 200 && n == 1 && code == 0
-	return o
 }
 
 func TestVerif_C02Wire(t *testing.T) {
@@ -607,6 +1130,8 @@ func TestVerif_C02Wire(t *testing.T) {
 		switch c.T {
 		case "batch":
 			o = c02Batch(t, r, c)
+		case "framing":
+			o = c02Framing(t, r, c)
 		case "httpshape", "httpbatch":
 			o = c02HTTP(t, r, c)
 		default:
@@ -623,6 +1148,15 @@ func TestVerif_C02Wire(t *testing.T) {
 		}
 		if o.Case.Order == nil {
 			o.Case.Order = []int{}
+		}
+		if o.Case.Frames == nil {
+			o.Case.Frames = []c02Frame{}
+		}
+		if o.Outcome == nil {
+			o.Outcome = []string{}
+		}
+		if o.DoneAfter == nil {
+			o.DoneAfter = [][]int{}
 		}
 		enc.Encode(o)
 	}
